@@ -8,7 +8,7 @@ from typing import (
     cast,
 )
 
-from prosemirror.utils import JSON, JSONList, text_length
+from prosemirror.utils import JSON, JSONList, slice_utf16, text_length
 
 if TYPE_CHECKING:
     from prosemirror.model.schema import Schema
@@ -84,7 +84,7 @@ class Fragment:
             nonlocal separated
             if node.is_text:
                 text_node = cast("TextNode", node)
-                text.append(text_node.text[max(from_, pos) - pos : to - pos])
+                text.append(slice_utf16(text_node.text, max(from_, pos) - pos, to - pos))
                 separated = not block_separator
             elif node.is_leaf:
                 if leaf_text:
